@@ -380,7 +380,7 @@ pub fn run(ctx: &mut Ctx, rt: &Rt, targets: Vec<Target>, not_covered: &[&str]) {
         (GET/POST queries returning their data, POST mutations whose resolver calls were observed in the log)."
         .into();
     ctx.assume("response keys are unique inside an operation (field merging of repeated keys belongs to other properties)");
-    ctx.assume("variables are nullable Strings, either provided or covered by a default (omitted variables without default belong to C-coercion properties)");
+    ctx.assume("variables are nullable Strings, either provided (a string or null) or omitted with a default (omitted variables without default belong to the coercion properties)");
     ctx.assume("'answered with an error' = non-2xx status, or a GraphQL answer with non-empty errors and no data (for multipart/mixed responses: the single JSON part)");
     ctx.assume("GET batches do not exist: every integration turns a query string into one single request; the batch extractors are exercised with GET (single) and POST (array)");
     ctx.assume("requests that select no operation (unknown operationName / missing name) only need an error answer and an empty log, under both methods");
